@@ -1,9 +1,40 @@
-(* C01 -- Matching conforms to the documented glob semantics. *)
+(* C01 -- Matching conforms to the documented glob semantics.
+   Every theorem is closed by [exact] of a lemma proved in coq/proofs; nothing else lives here. *)
 From WaxModel Require Import Base Token Regex Spec Encode.
 From WaxProofs Require Import EncodeFacts.
 
+(* character classes stay case sensitive whatever flags (case folding relation) are in force *)
 Theorem C01_class_ignores_flags :
   forall orbit orbit' cap s e neg a w,
     sem orbit (enc_leaf cap s e (LClass neg a)) w <-> sem orbit' (enc_leaf cap s e (LClass neg a)) w.
 Proof. exact class_ignores_flags. Qed.
 Print Assumptions C01_class_ignores_flags.
+
+(* `?` matches exactly one non-separator character *)
+Theorem C01_one :
+  forall orbit cap s e w, sem orbit (enc_leaf cap s e LOne) w <-> exists c, w = [c] /\ c <> SEP.
+Proof. exact one_sem. Qed.
+Print Assumptions C01_one.
+
+(* `*` and `$` match exactly the separator-free texts *)
+Theorem C01_zero_or_more :
+  forall orbit cap s e lz w, sem orbit (enc_leaf cap s e (LZom lz)) w <-> nosep w = true.
+Proof. exact zom_sem. Qed.
+Print Assumptions C01_zero_or_more.
+
+(* a class matches exactly one listed (unlisted) non-separator character, by exact code point *)
+Theorem C01_class :
+  forall orbit cap s e neg a w, forallb arch_valid a = true ->
+    (sem orbit (enc_leaf cap s e (LClass neg a)) w <-> exists c, w = [c] /\ class_match neg a c = true).
+Proof. exact class_sem. Qed.
+Print Assumptions C01_class.
+
+Theorem C01_class_never_separator :
+  forall orbit cap s e neg a w, sem orbit (enc_leaf cap s e (LClass neg a)) w -> exists c, w = [c] /\ c <> SEP.
+Proof. exact class_sem_nosep. Qed.
+Print Assumptions C01_class_never_separator.
+
+(* a lone tree wildcard matches every text: every character a path may contain, newlines included *)
+Theorem C01_tree_any_character : forall orbit cap w, sem orbit (enc_leaf cap true true (LTree false)) w.
+Proof. exact lone_tree_matches_everything. Qed.
+Print Assumptions C01_tree_any_character.
